@@ -52,6 +52,9 @@ pub struct ReqCfg {
     /// the handler completes unprompted (Finish is a fair event) or only as a deviation
     pub finish: bool,
     pub hk: HKind,
+    /// this script entry is a Cancel message for `id` instead of a request
+    #[serde(default)]
+    pub cancel: bool,
 }
 
 impl ReqCfg {
@@ -61,6 +64,13 @@ impl ReqCfg {
             deadline_ms: 10_000,
             finish,
             hk: HKind::Run,
+            cancel: false,
+        }
+    }
+    pub fn cancel_of(id: u64) -> Self {
+        ReqCfg {
+            cancel: true,
+            ..ReqCfg::simple(id, false)
         }
     }
 }
@@ -82,6 +92,16 @@ pub struct SCfg {
     pub fault: Option<Fault>,
     pub eof_at_end: bool,
     pub route: Route,
+    /// the peer sends its whole script at once, before the server is polled at all
+    #[serde(default)]
+    pub burst: bool,
+    /// deadline of unscripted duplicate requests (DupReq events)
+    #[serde(default = "default_dup_deadline")]
+    pub dup_deadline_ms: i64,
+}
+
+fn default_dup_deadline() -> i64 {
+    10_000
 }
 
 enum Reqs {
@@ -255,6 +275,9 @@ struct St {
     ended: bool,
     cancel_seq: u32,
     app_dropped: BTreeSet<u32>,
+    /// handlers that must not complete any more: their id was reused after a cancellation /
+    /// expiry on the premise that they never produced a response (see reuse_ok)
+    no_finish: BTreeSet<u32>,
     /// (id, payload, deadline_ms) of every request delivered so far
     sent_reqs: Vec<(u64, u32, i64)>,
 }
@@ -352,6 +375,7 @@ impl World {
             ended: false,
             cancel_seq: 0,
             app_dropped: BTreeSet::new(),
+            no_finish: BTreeSet::new(),
             sent_reqs: Vec::new(),
         };
         Rc::new(World {
@@ -380,7 +404,9 @@ impl World {
             .cfg
             .reqs
             .iter()
+            .filter(|c| !c.cancel)
             .flat_map(|c| [c.deadline_ms - 1, c.deadline_ms, c.deadline_ms + 1])
+            .chain(if self.has(S_DUP) { vec![self.cfg.dup_deadline_ms - 1, self.cfg.dup_deadline_ms, self.cfg.dup_deadline_ms + 1] } else { vec![] })
             .filter(|t| *t > now)
             .collect();
         v.sort();
@@ -422,10 +448,36 @@ impl World {
             return true;
         }
         let now = self.now_ms();
-        st.cancels_sent.get(&id).copied().unwrap_or(0) == 0
+        let cancelled = st.cancels_sent.get(&id).copied().unwrap_or(0) > 0;
+        // still in flight (a duplicate is ignored) ...
+        let in_flight = !cancelled
             && earlier
                 .iter()
-                .all(|(_, p, d)| *d > now && !st.app_dropped.contains(p))
+                .all(|(_, p, d)| *d > now && !st.app_dropped.contains(p));
+        // ... or ended without any response having been produced (handler never completed), so no
+        // stale response can exist: reuse after cancellation / expiry / application drop is clean
+        let ended_clean = earlier.iter().all(|(_, p, d)| {
+            !st.finished.contains(p) || st.app_dropped.contains(p)
+        }) && earlier
+            .iter()
+            .all(|(_, p, d)| cancelled || *d < now || st.app_dropped.contains(p));
+        in_flight || ended_clean
+    }
+
+    /// Called when a request reusing `id` is actually sent: if the reuse is only legal because the
+    /// earlier handlers never produced a response, they may not complete from now on.
+    fn note_reuse(&self, st: &mut St, id: u64) {
+        let now = self.now_ms();
+        let cancelled = st.cancels_sent.get(&id).copied().unwrap_or(0) > 0;
+        let earlier: Vec<(u64, u32, i64)> = st.sent_reqs.iter().filter(|r| r.0 == id).cloned().collect();
+        let in_flight = !cancelled && earlier.iter().all(|(_, p, d)| *d > now && !st.app_dropped.contains(p));
+        if !in_flight {
+            for (_, p, _) in earlier {
+                if !st.finished.contains(&p) {
+                    st.no_finish.insert(p);
+                }
+            }
+        }
     }
 
     fn enabled(&self) -> (Vec<Ev>, usize) {
@@ -457,14 +509,14 @@ impl World {
         let peer_can_talk = !st.eof_sent && !st.err_sent;
         if peer_can_talk
             && st.delivered < self.cfg.reqs.len()
-            && self.reuse_ok(&st, self.cfg.reqs[st.delivered].id)
+            && (self.cfg.reqs[st.delivered].cancel || self.reuse_ok(&st, self.cfg.reqs[st.delivered].id))
         {
             m.push(Ev::Deliver(st.delivered));
         }
         let started: Vec<u32> = st.started_payloads.clone();
         let mut unfinished_opt = Vec::new();
         for p in &started {
-            if st.finished.contains(p) {
+            if st.finished.contains(p) || st.no_finish.contains(p) {
                 continue;
             }
             if self.auto_finish(*p) {
@@ -484,7 +536,7 @@ impl World {
                 }
             }
             if peer_can_talk {
-                let ids: BTreeSet<u64> = self.cfg.reqs[..st.delivered].iter().map(|r| r.id).collect();
+                let ids: BTreeSet<u64> = self.cfg.reqs[..st.delivered].iter().filter(|r| !r.cancel).map(|r| r.id).collect();
                 if self.has(S_CANCEL) {
                     for id in &ids {
                         if st.cancels_sent.get(id).copied().unwrap_or(0) < 1 {
@@ -791,12 +843,22 @@ impl World {
                     self.on_panic(Task::Handler(j));
                 }
             }
+            Ev::Deliver(k) if self.cfg.reqs[k].cancel => {
+                let id = self.cfg.reqs[k].id;
+                {
+                    let mut st = self.st.borrow_mut();
+                    st.delivered = k + 1;
+                    *st.cancels_sent.entry(id).or_insert(0) += 1;
+                }
+                self.send_cancel(id);
+            }
             Ev::Deliver(k) => {
                 let r = &self.cfg.reqs[k];
                 let m = mk_request(&self.log, r.id, k as u32, r.deadline_ms);
                 {
                     let mut st = self.st.borrow_mut();
                     st.delivered = k + 1;
+                    self.note_reuse(&mut st, r.id);
                     st.sent_reqs.push((r.id, k as u32, r.deadline_ms));
                 }
                 self.log.push(Rec::M("in", m.to_msg(self.log.t0)));
@@ -806,12 +868,13 @@ impl World {
                 let p = {
                     let mut st = self.st.borrow_mut();
                     st.dups_sent.insert(id);
+                    self.note_reuse(&mut st, id);
                     let p = st.next_dup_payload;
                     st.next_dup_payload += 1;
-                    st.sent_reqs.push((id, p, 10_000));
+                    st.sent_reqs.push((id, p, self.cfg.dup_deadline_ms));
                     p
                 };
-                let m = mk_request(&self.log, id, p, 10_000);
+                let m = mk_request(&self.log, id, p, self.cfg.dup_deadline_ms);
                 self.log.push(Rec::M("in", m.to_msg(self.log.t0)));
                 self.core.borrow_mut().push_in(InItem::Item(m));
             }
@@ -951,6 +1014,15 @@ pub fn execute(cfg: &SCfg, prefix: &[u16], suppress_cancel: Option<u32>) -> Exec
     rt.block_on(tokio::task::unconstrained(async {
         let w = World::new(cfg, prefix, suppress_cancel);
         w.fingerprint();
+        if cfg.burst {
+            for k in 0..cfg.reqs.len() {
+                if cfg.reqs[k].cancel || w.reuse_ok(&w.st.borrow(), cfg.reqs[k].id) {
+                    w.apply(Ev::Deliver(k));
+                } else {
+                    break;
+                }
+            }
+        }
         loop {
             let more = w.step();
             if let Some(t) = w.pending_advance.take() {
